@@ -366,3 +366,70 @@ def np_run_state(gates, n, psi0=None, desired=None):
                 psi = new
         psi = new
     return psi, prob
+
+
+# ---------------------------------------------------------------- classical (reversible) programs with measurements
+def classical_meas_prog(rng, n, m, coins=0):
+    """A program of X / CNOT gates and m MEASURE gates on n qubits whose outcomes are a deterministic function of
+    `coins` coin flips (H on a fresh qubit immediately followed by its MEASURE).
+    Returns (instructions, evaluate) where instructions is a list of ("X", q) / ("CNOT", c, t) / ("H", q) / ("MEASURE", q)
+    and evaluate(coin_bits) -> (mid_string, final_string), qubit 0 first."""
+    ins = []
+    fresh = list(range(n))
+    rng.shuffle(fresh)
+    coin_qubits = fresh[:coins]
+    meas_left = m
+    coin_left = list(coin_qubits)
+    steps = m + rng.randint(n, 2 * n + 2)
+    touched = set()
+    for s in range(steps):
+        r = rng.random()
+        if coin_left and r < 0.25:
+            q = coin_left.pop()
+            ins.append(("H", q)); ins.append(("MEASURE", q)); meas_left -= 1
+            touched.add(q)
+        elif meas_left > len(coin_left) and r < 0.5:
+            ins.append(("MEASURE", rng.randrange(n))); meas_left -= 1
+        elif r < 0.75 or n == 1:
+            q = rng.choice([x for x in range(n) if x not in coin_left] or [0])
+            ins.append(("X", q))
+        else:
+            c, t = rng.sample(range(n), 2)
+            if c in coin_left or t in coin_left:
+                continue
+            ins.append(("CNOT", c, t))
+    for q in coin_left:
+        ins.append(("H", q)); ins.append(("MEASURE", q)); meas_left -= 1
+    while meas_left > 0:
+        ins.append(("MEASURE", rng.randrange(n))); meas_left -= 1
+
+    def evaluate(coin_bits):
+        bits = [0] * n
+        coin_iter = iter(coin_bits)
+        mid = []
+        pending_coin = None
+        for g in ins:
+            if g[0] == "X":
+                bits[g[1]] ^= 1
+            elif g[0] == "CNOT":
+                bits[g[2]] ^= bits[g[1]]
+            elif g[0] == "H":
+                pending_coin = g[1]
+            else:
+                if pending_coin == g[1]:
+                    bits[g[1]] = next(coin_iter)
+                    pending_coin = None
+                mid.append(bits[g[1]])
+        return "".join(map(str, mid)), "".join(map(str, bits))
+    return ins, evaluate
+
+
+def classical_prog_to_circuit(ins, n):
+    from tangelo.linq import Circuit, Gate
+    gs = []
+    for g in ins:
+        if g[0] == "CNOT":
+            gs.append(Gate("CNOT", g[2], g[1]))
+        else:
+            gs.append(Gate(g[0], g[1]))
+    return Circuit(gs, n_qubits=n)
